@@ -125,6 +125,9 @@ pub const LEAVES: &[Leaf] = &[
     leaf("printf -v pv '%s' x; unset pv"),
     leaf("getopts ab: o -a; OPTIND=1"),
     leaf("wait; jobs > /dev/null"),
+    leaf("fsrcdecl"),
+    leaf("V=x fsrcdecl"),
+    leaf("fsrcdecl | simcat"),
     leaf("xtrue"),
     leaf("xexit 3"),
     leaf("V=x xexit 2"),
@@ -151,6 +154,7 @@ fcat() { simcat; }\n\
 flocal() { local a=1 b=2; nosuchcmd_c18; }\n\
 fdeep() { if [ $1 -gt 0 ]; then V=$1 fdeep $(($1-1)); else return 5; fi; }\n\
 fslash() { ./nonexistent_cmd_c18; ./noexec.txt; }\n\
+fsrcdecl() { . ./decl.sh; }\n\
 fnameref() { local -n ref=RO; local a=1; nosuchcmd_c18; }\n\
 fredir_bad() { echo x; } > /nonexistent_dir_c18/out\n\
 fredir_in() { simcat; } < missing_file\n\
@@ -328,6 +332,7 @@ pub fn judge(case: &Case) -> Verdict {
         ("bad.sh".to_string(), "if true; then\n".to_string()),
         ("good.sh".to_string(), "gv=1\n".to_string()),
         ("noexec.txt".to_string(), "not a program\n".to_string()),
+        ("decl.sh".to_string(), "declare -a acc18\nacc18+=(x)\nlocal cnt18=1\ndeclare -i n18\nn18+=1\necho \"decl ${#acc18[@]} $n18 $cnt18\"\n".to_string()),
     ];
     let has_coproc = case.seq.iter().any(|i| LEAVES[*i % LEAVES.len()].coproc);
     let mut v = Verdict::default();
